@@ -46,6 +46,63 @@ def ref_plan(t):
     raise ValueError(t)
 
 
+def ref_union_meta(t, out=None):
+    """Per union of the concrete type t, in the order in which the plan extractors meet them: (NDJSON tagging, tags).
+    Tagging follows the documented rule (untagged iff the cases serialize to pairwise distinct JSON datatypes); a union that
+    has a type parameter as a case is 'param' (the documentation does not say when the decision is taken)."""
+    out = [] if out is None else out
+    if t is None:
+        return out
+    k = t[0]
+    if k == "record":
+        for _, ft in t[2]:
+            ref_union_meta(ft, out)
+    elif k in ("opt", "vec", "arr", "stream"):
+        ref_union_meta(t[1], out)
+    elif k == "map":
+        ref_union_meta(t[1], out)
+        ref_union_meta(t[2], out)
+    elif k == "union":
+        flag = "param" if len(t) > 2 else ("untagged" if refcodec.union_untagged(t) else "tagged")
+        out.append((flag, tuple(tag for tag, c in t[1] if c is not None)))
+        for _, c in t[1]:
+            ref_union_meta(c, out)
+    return out
+
+
+def strip_meta(plan, metas=None):
+    """(plan without the ('meta', ...) element of union nodes, [meta, ...] in traversal order)"""
+    metas = [] if metas is None else metas
+    if not isinstance(plan, tuple):
+        return plan, metas
+    if len(plan) == 4 and plan[0] == "union" and isinstance(plan[3], tuple) and plan[3][:1] == ("meta",):
+        metas.append(plan[3][1:])
+        return ("union", plan[1], tuple(strip_meta(x, metas)[0] for x in plan[2])), metas
+    return tuple(strip_meta(x, metas)[0] for x in plan), metas
+
+
+def py_union_cases(types_text):
+    """{'Int32OrString.Int32': (index, tag)} from the union case classes of a generated types.py"""
+    out = {}
+    for m in re.finditer(r'^(\w+)\.(\w+) = type\("[^"]*", \(\w+,\), \{"index": (\d+), "tag": "([^"]*)"\}\)', types_text, re.M):
+        out[m.group(1) + "." + m.group(2)] = (int(m.group(3)), m.group(4))
+    return out
+
+
+def matlab_union_cases(nsdir, nsname):
+    """{'ns.Int32OrString.Int32': index} from the static factory methods of the generated union classes"""
+    out = {}
+    for fn in os.listdir(nsdir):
+        if not fn.endswith(".m"):
+            continue
+        txt = open(os.path.join(nsdir, fn)).read()
+        if "< yardl.Union" not in txt:
+            continue
+        for m in re.finditer(r"function res = (\w+)\(value\)\n\s+res = ([\w.]+)\((\d+), value\);", txt):
+            out[m.group(2) + "." + m.group(1)] = int(m.group(3))
+    return out
+
+
 # ------------------------------------------------------------------ generic call-expression parser (Python / MATLAB)
 TOKEN = re.compile(r"\s*(?:(?P<id>@?[A-Za-z_][A-Za-z0-9_.]*)|(?P<num>-?\d+)|(?P<str>'[^']*'|\"[^\"]*\")|(?P<p>[()\[\]{},]))")
 
@@ -149,11 +206,26 @@ def py_plan(node, records, env=None, kind="Serializer"):
         cases = args[1][1]
         has_null = cases and cases[0] == ("name", "None")
         plans = []
+        known, tags, idx_ok, over_param = records.get("__union_cases__"), [], True, False
         for c in cases:
             if c == ("name", "None"):
                 continue
+            if known is not None and c[1][0][0] == "name":
+                info = known.get(".".join(c[1][0][1].split(".")[-2:]))
+                if info is None:
+                    raise Unparsed("union case class %s not found in types.py" % c[1][0][1])
+                idx_ok = idx_ok and info[0] == len(plans)
+                tags.append(info[1])
+            over_param = over_param or (c[1][1][0] == "name" and c[1][1][1] in env)
             plans.append(py_plan(c[1][1], records, env, kind))
-        return ("union", bool(has_null), tuple(plans))
+        if known is None:
+            return ("union", bool(has_null), tuple(plans))
+        flag = None
+        if kind == "Converter":
+            if len(args) < 3 or args[2] not in (("name", "True"), ("name", "False")):
+                raise Unparsed("UnionConverter without a simplified flag")
+            flag = "param" if over_param else ("untagged" if args[2][1] == "True" else "tagged")
+        return ("union", bool(has_null), tuple(plans), ("meta", flag, tuple(tags), idx_ok))
     if base == "Vector":
         return ("vec", py_plan(args[0], records, env, kind))
     if base == "FixedVector":
@@ -241,7 +313,21 @@ def matlab_plan(node, records, env=None):
     if base == "Union":
         plans = [matlab_plan(a, records, env) for a in args[1][1]]
         has_null = bool(plans) and plans[0] == ("none",)
-        return ("union", has_null, tuple(p for p in plans if p != ("none",)))
+        known = records.get("__union_cases__")
+        if known is None:
+            return ("union", has_null, tuple(p for p in plans if p != ("none",)))
+        if len(args) < 3 or len(args[2][1]) != len(plans):
+            raise Unparsed("matlab UnionSerializer without one factory per case")
+        idx_ok, pos = True, 0
+        for f in args[2][1]:
+            if f == ("name", "yardl.None"):
+                idx_ok = idx_ok and pos == 0 and has_null
+                continue
+            pos += 1
+            if f[0] != "name" or f[1].lstrip("@") not in known:
+                raise Unparsed("matlab union factory %r not found" % (f,))
+            idx_ok = idx_ok and known[f[1].lstrip("@")] == pos
+        return ("union", has_null, tuple(p for p in plans if p != ("none",)), ("meta", None, (), idx_ok))
     if base == "Vector":
         return ("vec", matlab_plan(args[0], records, env))
     if base == "FixedVector":
